@@ -20,6 +20,7 @@ type CliOpts struct {
 	Padding       bool
 	ConnFields    bool // include connection-specific fields in the request (they must be stripped)
 	BadReader     bool // body readers may fail
+	RespTrailers  bool // scripted responses may end with trailers
 	AlwaysWaitEnd bool
 }
 
@@ -114,6 +115,13 @@ func GenCliReq(r *RNG, k int, o CliOpts) (CliReq, Lane) {
 	}
 	endOnHeaders := resp.BodyLen == 0 && r.Intn(2) == 0
 	h.EndStream = endOnHeaders
+	if o.RespTrailers && r.Intn(10) == 0 {
+		// an interim response first (RFC 7540 8.1: zero or more header blocks with a 1xx status precede the final one)
+		resp.Interim = []HF{{"link", "</style.css>; rel=preload"}}
+		ih := Op{Kind: "headers", Fields: append([]HF{{":status", "103"}}, resp.Interim...), Pad: -1, TableSize: -1}
+		ih.Reps = genReps(r, len(ih.Fields), o.Variety)
+		l.Ops = append(l.Ops, ih)
+	}
 	l.Ops = append(l.Ops, h)
 	if !endOnHeaders {
 		rest := resp.BodyLen
@@ -144,6 +152,19 @@ func GenCliReq(r *RNG, k int, o CliOpts) (CliReq, Lane) {
 		if resp.BodyLen == 0 {
 			l.Ops = append(l.Ops, Op{Kind: "data", Len: 0, Pad: -1, EndStream: true, TableSize: -1})
 		}
+		if o.RespTrailers && r.Intn(6) == 0 {
+			// trailers: the stream ends with a second header block instead of a DATA frame
+			resp.Trailers = []HF{{"x-trailer-r", Pick(r, "t1", "", "ok")}}
+			if r.Intn(2) == 0 {
+				resp.Trailers = append(resp.Trailers, HF{"grpc-status", "0"})
+			}
+			l.Ops[len(l.Ops)-1].EndStream = false
+			t := Op{Kind: "trailers", Fields: resp.Trailers, Reps: genReps(r, len(resp.Trailers), o.Variety), Pad: -1, EndStream: true, TableSize: -1}
+			if o.Splits && r.Intn(2) == 0 {
+				t.Splits = genSplits(r)
+			}
+			l.Ops = append(l.Ops, t)
+		}
 	}
 	l.Resp = resp
 	return q, l
@@ -172,7 +193,7 @@ func genC02(r *RNG, splits bool) *CliPlan {
 		AutoWindow: true, ConnWindowBoost: 1 << 24, LinkCap: Pick(r, 0, 0, 8192, 100000)}
 	n := 1 + r.Intn(6)
 	o := CliOpts{MaxBody: 150000, BodyModes: []string{"buffered", "buffered", "stream-declared", "stream-unknown", "stream-zero"}, RespMaxBody: 100000,
-		Variety: r.Intn(4) != 0, Splits: splits && r.Intn(3) != 0, Padding: r.Intn(2) == 0, ConnFields: true}
+		Variety: r.Intn(4) != 0, Splits: splits && r.Intn(3) != 0, Padding: r.Intn(2) == 0, ConnFields: true, RespTrailers: true}
 	for k := 0; k < n; k++ {
 		q, l := GenCliReq(r, k, o)
 		if k > 0 && r.Intn(4) == 0 {
@@ -181,7 +202,68 @@ func genC02(r *RNG, splits bool) *CliPlan {
 		p.Reqs = append(p.Reqs, q)
 		p.Lanes = append(p.Lanes, l)
 	}
+	if r.Intn(8) == 0 {
+		hpackTableFull(r, p.Lanes[:n], 4096)
+		p.Srv.HeaderTableSize = -1
+	}
 	return p
+}
+
+// hpackTableFull rewrites the responses (or requests) of the lanes so that their header blocks fill the decoder's
+// dynamic table to exactly `size` octets (RFC 7541 4.1: name + value + 32 per entry; a table that is exactly full
+// evicts nothing) and later blocks refer to every entry, the oldest included.
+func hpackTableFull(r *RNG, lanes []Lane, size int) {
+	k := Pick(r, 1, 2, 3, 4, 8)
+	left := size
+	var fill []HF
+	for i := 0; i < k; i++ {
+		n := left
+		if i < k-1 {
+			n = 41 + r.Intn(left-(k-i-1)*41-40)
+		}
+		left -= n
+		fill = append(fill, HF{fmt.Sprintf("x-fill-%d", i), strings.Repeat(string(rune('a'+i)), n-32-8)})
+	}
+	for li := range lanes {
+		l := &lanes[li]
+		for oi := range l.Ops {
+			op := &l.Ops[oi]
+			if op.Kind != "headers" || len(op.Fields) == 0 || (op.Fields[0].Name == ":status" && op.Fields[0].Value == "103") {
+				continue
+			}
+			var rid HF
+			for _, f := range op.Fields {
+				if f.Name == "x-rid" {
+					rid = f
+				}
+			}
+			if l.Req != nil {
+				// a request: everything it had stays, sent literally and kept out of the table; the fill fields follow
+				op.Reps = make([]Rep, len(op.Fields)+len(fill))
+				for i := range op.Fields {
+					op.Reps[i] = 2
+				}
+				op.Fields = append(op.Fields, fill...)
+				l.Req.Fields = append(l.Req.Fields, fill...)
+				for ti := range l.Ops {
+					if l.Ops[ti].Kind == "trailers" {
+						for i := range l.Ops[ti].Reps {
+							l.Ops[ti].Reps[i] = 2
+						}
+					}
+				}
+				break
+			}
+			if l.Resp != nil {
+				l.Resp.Status = 200
+				l.Resp.Fields = append(append([]HF{}, fill...), rid)
+				op.Fields = append(append([]HF{{":status", "200"}}, fill...), rid)
+			}
+			op.Reps = make([]Rep, len(op.Fields))
+			op.Reps[len(op.Reps)-1] = 2 // the one field that differs between the blocks is never put into the table
+			break
+		}
+	}
 }
 
 func isConnSpecific(n string) bool {
@@ -335,6 +417,13 @@ func checkResponseReturned(k int, l *Lane, c *callerState) (rule, detail string)
 			continue
 		}
 		kv := strings.SplitN(kk, "\x00", 2)
+		trailer := false
+		for _, t := range append(append([]HF{}, r.Trailers...), r.Interim...) {
+			trailer = trailer || (t.Name == kv[0] && t.Value == kv[1])
+		}
+		if trailer {
+			continue // trailer fields may be reported along with the header fields, or not at all
+		}
 		switch kv[0] {
 		case "content-type", "content-length", "server", "date":
 		default:
